@@ -17,7 +17,7 @@ func init() {
 		ID:   "C15",
 		Rule: "for every band configuration, seeded histories (length <= 30) over AddChannel(f, minDR, maxDR) / DisableUplinkChannelIndex(i) / EnableUplinkChannelIndex(i) with arbitrary integers (negative, == len, huge) run in lock-step with a sequential model of the channel plan; after every operation the five index-set getters (with the partition laws), GetUplinkChannel / GetDownlinkChannel for every index -2..len+1, the frequency and frequency+DR lookups for every present pair and some absent ones, GetTXPowerOffset(-2..20) and GetCFList for the 6 protocol versions + an unknown one are compared with the model; invalid arguments must give errors, never panics, and must leave the state unchanged. Every frequency / data-rate / CFList the band hands out (RX2 and ping-slot defaults, every channel, RX1 results, CFList) is pushed through RXParamSetupReq, NewChannelReq, DLChannelReq, PingSlotChannelReq, BeaconFreqReq and CFList/JoinAcceptPayload encode->decode and must come back equal. Distinct = (band, operation kind, argument class) / (band, MAC command, source of the value).",
 		Assumptions: []string{
-			"AddChannel frequencies are multiples of 100 Hz inside the band (multiples of 200 Hz for ISM2400) and, one time in six, any multiple of 100 Hz that a 24-bit frequency field can carry (100 MHz - 1677.7215 MHz; NewChannelReq is not asked to carry 1.2-2.4 GHz, for which it has no coding); frequency 0 is not generated",
+			"AddChannel frequencies are multiples of 100 Hz inside the band (multiples of 200 Hz for ISM2400) and, one time in six, any multiple of 100 Hz that a 24-bit frequency field can carry (100 MHz - 1677.7215 MHz; NewChannelReq is not asked to carry 1.2-2.4 GHz, for which it has no coding); frequency 0 (an unused placeholder slot) one time in twelve",
 			"GetCFList lists custom channels regardless of their enabled flag (the property only asks for 'its custom channels, first five, in order')",
 		},
 		MinEvals: 1000,
@@ -342,6 +342,17 @@ func runC15(c *core.Ctx) {
 					if r.Chance(1, 2) {
 						min, max = reg.CFListMinDR, reg.CFListMaxDR
 					}
+					if r.Chance(1, 12) {
+						// a placeholder slot (frequency 0 = unused) is a custom channel like any other for the index
+						// sets; it gets a data-rate range outside the CFList one, so that what a CFList should say
+						// about an unused slot is not part of what is judged here
+						f, min, max = 0, 1, 2
+					}
+					if len(up) > 0 && r.Chance(1, 6) {
+						// exactly a channel the plan already has (enabled or not): a second entry, like any other AddChannel
+						k := up[r.Intn(len(up))]
+						f, min, max = k.freq, k.min, k.max
+					}
 					var err error
 					c.Eval(1)
 					if p, msg := core.Guard(func() { err = b.AddChannel(f, min, max) }); p {
@@ -354,8 +365,9 @@ func runC15(c *core.Ctx) {
 						if err != nil {
 							c.Violate("C15|"+cfg.Name+"|addchannel-refused", "%v", err)
 						} else {
-							up = append(up, chModel{f, min, max, true, true})
-							down = append(down, chModel{f, min, max, true, true})
+							// a placeholder slot (frequency 0) starts out disabled, everything else enabled
+							up = append(up, chModel{f, min, max, f != 0, true})
+							down = append(down, chModel{f, min, max, f != 0, true})
 						}
 						kind = "add"
 					} else {
